@@ -146,6 +146,17 @@ def examine(case, draw=None, stats=None):
         if s1 != base:
             out.append(V('log-replay', ['log-replay-differs'] + diff(base, s1)[:2], case,
                          {k: [base[k], s1[k]] for k in diff(base, s1)}))
+    # the same log handed over in other containers (a tuple, a one-shot iterator, a generator): the same competition
+    for label, mk in (('tuple', lambda: tuple(c.actions)), ('iterator', lambda: iter(list(c.actions))),
+                      ('generator', lambda: (a for a in list(c.actions)))):
+        r_ = safe_call(c.from_actions, mk())
+        if r_[0] == 'exc':
+            out.append(V('log-replay', ['log-replay-raises', r_[1], 'log-as-' + label], case, r_[:3]))
+            break
+        if snap(r_[1]) != base:
+            out.append(V('log-replay', ['log-replay-differs', 'log-as-' + label] + diff(base, snap(r_[1]))[:2], case,
+                         {k: [base[k], snap(r_[1])[k]] for k in diff(base, snap(r_[1]))}))
+            break
     beyond = bool(case.get('log_only'))
     # (2) card export / import - the plain card, and the same card exported with the other columns an export may carry
     # (default columns, the start-list columns) or imported with the documented verbose option: the same competition
